@@ -22,6 +22,7 @@
 //	c05.fcmp_eq_ne_flags    amd64/machine.go lowerFcmpToFlags                  the flag pairs of FloatCmpCondEqual / NotEqual
 //	c17.ro_dir_mount        fsconfig.go WithReadOnlyDirMount                  the statements of the function
 //	c03.drop_range_units    interpreter/compiler.go getFrameDropRange         the three quantities the drop range is computed from
+//	c04.type_of_import      wasm/module.go typeOfFunction                     the scan over the import section: counter initialisation, loop header, skip condition
 //	c09.compiled_fields     wazevo/engine.go compiledModule, interpreter compiledFunction   field names of what is shared by all instances
 package main
 
@@ -340,6 +341,49 @@ func main() {
 			return true
 		})
 		add("c03.drop_range_units", strings.Join(rhs, " ;; "))
+	}
+	{
+		fd := fn(*repo, "internal/wasm/module.go", "typeOfFunction", "Module")
+		var parts []string
+		ast.Inspect(fd.Body, func(n ast.Node) bool {
+			switch x := n.(type) {
+			case *ast.AssignStmt:
+				if len(x.Lhs) == 1 && src(x.Lhs[0]) == "cur" {
+					parts = append(parts, src(x))
+				}
+			case *ast.IncDecStmt:
+				if src(x.X) == "cur" {
+					parts = append(parts, src(x))
+				}
+			case *ast.RangeStmt:
+				parts = append(parts, "for "+src(x.Key)+" := range "+src(x.X))
+			case *ast.ForStmt:
+				h := "for "
+				if x.Init != nil {
+					h += src(x.Init)
+				}
+				h += "; "
+				if x.Cond != nil {
+					h += src(x.Cond)
+				}
+				h += "; "
+				if x.Post != nil {
+					h += src(x.Post)
+				}
+				parts = append(parts, h)
+			case *ast.IfStmt:
+				if len(x.Body.List) == 1 {
+					if b, ok := x.Body.List[0].(*ast.BranchStmt); ok && b.Tok == token.CONTINUE {
+						parts = append(parts, "skip if "+src(x.Cond))
+					}
+				}
+				if src(x.Cond) == "funcIdx == cur" {
+					parts = append(parts, "hit if funcIdx == cur")
+				}
+			}
+			return true
+		})
+		add("c04.type_of_import", strings.Join(parts, " ;; "))
 	}
 	add("c09.compiled_fields", "wazevo.compiledModule: "+structFields(*repo, "internal/engine/wazevo/engine.go", "compiledModule")+
 		" ;; interpreter.compiledFunction: "+structFields(*repo, "internal/engine/interpreter/interpreter.go", "compiledFunction"))
